@@ -81,6 +81,110 @@ def run(ctx):
             msg = f'_resolve_parameters_ does not read parameter field(s) {sorted(a - c)}'
         ctx.ob('C10.a', key + (':fields' if not ok else ''), ok, msg, ci.mod.rel, line, construct=key)
 
+    # ------------------------------------------------------------------ C10.a2
+    ctx.decided.append('C10.a2 every parameter-carrying field actually flows into a call that receives the resolver (reading a field only to copy it unchanged does not resolve it)')
+    ctx.rule('C10.a2', 'applied resolver: every field read by _is_parameterized_ / _parameter_names_ reaches, in _resolve_parameters_ (through locals, loops, helpers and super()), '
+             'a call whose receiver or arguments derive from the `resolver` parameter', floor=30, style='TNT')
+    A2_EXEMPT = {
+        'cirq.circuits.circuit_operation.CircuitOperation':
+            '_is_parameterized_ looks at the mapped circuit, which reads every map; the resolved fields are checked by C12.e',
+    }
+    from ..flow import name_deps
+
+    def resolved_fields(ci0, owner, fn, depth=0, seen=None):
+        seen = seen if seen is not None else set()
+        if fn in seen or depth > 3:
+            return set()
+        seen.add(fn)
+        params = [a.arg for a in fn.args.args[1:]]
+        rname = next((p_ for p_ in params if 'resolver' in p_ or p_ in ('param_values', 'params')), params[0] if params else None)
+
+        def src(n):
+            if isinstance(n, ast.Attribute) and isinstance(n.value, ast.Name) and n.value.id == 'self':
+                return {F.norm_field(repo, ci0, n.attr)}
+            if isinstance(n, ast.Call) and isinstance(n.func, ast.Attribute) and isinstance(n.func.value, ast.Name) and n.func.value.id == 'self':
+                m = repo.find_method(ci0, n.func.attr)
+                if m is not None:
+                    return set(F.self_reads(repo, ci0, m[1], depth=2))
+            if isinstance(n, (ast.For, ast.comprehension)) and isinstance(n.iter, ast.Name) and n.iter.id == 'self':
+                return None
+            return None
+        dep = name_deps(fn, {'self': {'<self>'}}, source_of=src)
+        # aliases of the resolver: the parameter itself and names bound to it directly or through ParamResolver(...) / cast(...)
+        aliases = {rname} if rname else set()
+
+        def direct(e):
+            if isinstance(e, ast.Name):
+                return e.id in aliases
+            if isinstance(e, ast.Call) and call_name(e) in ('ParamResolver', 'cast') and e.args:
+                return direct(e.args[-1])
+            if isinstance(e, ast.Attribute):
+                return direct(e.value)
+            return False
+        grew = True
+        while grew:
+            grew = False
+            for st in ast.walk(fn):
+                if isinstance(st, ast.Assign) and len(st.targets) == 1 and isinstance(st.targets[0], ast.Name) and st.targets[0].id not in aliases and direct(st.value):
+                    aliases.add(st.targets[0].id)
+                    grew = True
+
+        def labels(e):
+            out = set()
+            for x in ast.walk(e):
+                if isinstance(x, ast.Name) and x.id in dep and x.id != 'self':
+                    out |= dep[x.id]
+                if isinstance(x, ast.Name) and x.id == 'self' and not isinstance(getattr(x, 'ctx', None), ast.Store):
+                    pass
+                s_ = src(x)
+                if s_:
+                    out |= s_
+            return out
+
+        def is_r(e):
+            return direct(e)
+        out = set()
+        for c in ast.walk(fn):
+            if not isinstance(c, ast.Call):
+                continue
+            args = list(c.args) + [k.value for k in c.keywords]
+            recv_r = isinstance(c.func, ast.Attribute) and is_r(c.func.value)
+            if recv_r or any(is_r(a) for a in args):
+                for a in args:
+                    if not is_r(a):
+                        out |= labels(a)
+                        # a bare loop variable over `self` stands for the object's own sequence
+                        for x in ast.walk(a):
+                            if isinstance(x, ast.Name) and '<self>' in dep.get(x.id, ()):
+                                out.add('<self>')
+            if isinstance(c.func, ast.Attribute) and isinstance(c.func.value, ast.Name) and c.func.value.id == 'self':
+                m = repo.find_method(ci0, c.func.attr)
+                if m is not None and any(is_r(a) for a in args):
+                    out |= resolved_fields(ci0, m[0], m[1], depth + 1, seen)
+            elif isinstance(c.func, ast.Attribute) and isinstance(c.func.value, ast.Call) and call_name(c.func.value) == 'super':
+                for b in repo.mro(owner)[1:]:
+                    if c.func.attr in b.methods:
+                        out |= resolved_fields(ci0, b, b.methods[c.func.attr], depth + 1, seen)
+                        break
+        return out
+    for ci in sorted(repo.classes.values(), key=lambda c: c.qual):
+        own = [t for t in TRIPLE if t in ci.methods]
+        if not own or '.testing.' in ci.qual or ci.name.startswith('Supports') or ci.qual.startswith('cirq.protocols.') or ci.qual in TRIPLE_EXEMPT:
+            continue
+        ms = {t: repo.find_method(ci, t) for t in TRIPLE}
+        if not all(ms.values()):
+            continue
+        key = ci.qual
+        if ci.qual in A2_EXEMPT:
+            ctx.ob('C10.a2', key, True, 'listed: ' + A2_EXEMPT[ci.qual], ci.mod.rel, ms[TRIPLE[2]][1].lineno)
+            continue
+        a = _norm(ci, F.self_reads(repo, ci, ms[TRIPLE[1]][1], depth=3))
+        c = _norm(ci, resolved_fields(ci, ms[TRIPLE[2]][0], ms[TRIPLE[2]][1]))
+        miss = sorted(a - c)
+        ctx.ob('C10.a2', key + (':unresolved-fields' if miss else ''), not miss,
+               '' if not miss else f'_parameter_names_ reports symbols of {miss}, but _resolve_parameters_ never hands {miss} to the resolver: those symbols survive resolution',
+               ci.mod.rel, ms[TRIPLE[2]][1].lineno, construct=key)
+
     # ------------------------------------------------------------------ C10.b
     shared.rebuild_rule(ctx, 'C10.b', only_methods={'_resolve_parameters_'}, floor=20)
 
